@@ -256,10 +256,10 @@ def obligations(tier):
         obs.append(ob_duplicates(4, 1, T))
     obs.append(ob_short_string(ml, T))
     for w, st in styles:
-        obs.append(ob_long_field(w, st, ml, T))
-    obs.append(ob_remove_blanks(T))
-    obs += numtok.obs_regex("spec")
-    obs.append(numtok.ob_strtoint("spec"))
+        guard(obs, "long-field-%s-%s" % (w, st), lambda: ob_long_field(w, st, ml, T), FUNCS[:2])
+    guard(obs, "remove-blanks", lambda: ob_remove_blanks(T), FUNCS[:2])
+    guard(obs, "num-regex-spec", lambda: numtok.obs_regex("spec"), numtok.FN[1:2])
+    guard(obs, "num-strtoint-spec", lambda: numtok.ob_strtoint("spec"), numtok.FN[2:3])
     from harness import C01
 
     obs.append(C01.ob_short_numrow(300))
